@@ -643,9 +643,10 @@ def parse_equation(equation: str) -> List[Symbol]:
             # previous entry
             if name in functions:
                 assert symbol == functions[name]
-            # Otherwise, store
+            # Otherwise, store (combining with any earlier symbol of the same
+            # name, to raise an error on a clash with a variable)
             else:
-                symbols[name] = symbol
+                symbols[name] = symbols.get(name, symbol).combine(symbol)
                 functions[name] = symbol
             continue
 
